@@ -22,6 +22,7 @@ def features_of(pred, lines, idx, cfgname):
         try:
             if pre[a]["conn"] != e["post"][a]["conn"]:
                 f["conn_" + a] = "%s>%s" % (pre[a]["conn"], e["post"][a]["conn"])
+                f["transition"] = f["conn_" + a]
         except (KeyError, TypeError):
             pass
     return f
@@ -50,7 +51,17 @@ def run_batch(work, binary, verdict, run, seed, tag, stats):
     name = run["cfg"]
     cfg = g.load(name, CONFIGS)
     trace = work.path("%s-%s.ndjson" % (tag, name))
-    job = {"configs": CONFIGS, "cfg": name, "seed": seed, "traces": run.get("traces", 0), "scheds": run.get("scheds", []),
+    scheds = []
+    for i, sn in enumerate(run.get("scheds", [])):
+        if os.path.isabs(sn):
+            scheds.append(sn)
+            continue
+        lib = json.load(open(os.path.join(v.SPECS, "session", "scheds", sn + ".json")))
+        assert lib["cfg"] == name, (sn, name)
+        sp = work.path("%s-sched%d.json" % (tag, i))
+        json.dump(lib["schedule"], open(sp, "w"))
+        scheds.append(sp)
+    job = {"configs": CONFIGS, "cfg": name, "seed": seed, "traces": run.get("traces", 0), "scheds": scheds,
            "out": trace, "drain": run.get("drain", False), "notime": run.get("notime", False),
            "stats": work.path("%s-%s.stats.json" % (tag, name)), "zerowait": run.get("zerowait", False)}
     jp = work.path("%s-%s.job.json" % (tag, name))
@@ -112,13 +123,13 @@ def run_batch(work, binary, verdict, run, seed, tag, stats):
     return lines
 
 
-def model_check(work, name, stats, invariants=None, timeout=900, mc_override=None, workers=None):
+def model_check(work, name, stats, invariants=None, timeout=900, mc_override=None, workers=None, properties=None):
     cfg = g.load(name, CONFIGS)
     if cfg.get("mc") is None:
         return None
     if mc_override:
         cfg["mc"].update(mc_override)
-    mod = g.gen_mc(work.dir, name, cfg, invariants=invariants)
+    mod = g.gen_mc(work.dir, name, cfg, invariants=invariants, properties=properties)
     r = v.tlc(work.dir, mod, timeout=timeout, workers=workers)
     if r.error:
         sys.stderr.write(r.out[-2000:])
@@ -126,7 +137,8 @@ def model_check(work, name, stats, invariants=None, timeout=900, mc_override=Non
     stats["states"] += r.distinct
     stats["transitions"] += r.generated
     stats["model_runs"].append({"cfg": name, "constants": cfg["mc"], "distinct": r.distinct, "generated": r.generated,
-                                "depth": r.depth, "wall_s": round(r.wall, 1), "invariants_violated": r.invariants_violated})
+                                "depth": r.depth, "wall_s": round(r.wall, 1), "invariants": invariants, "properties": properties or [],
+                                "invariants_violated": r.invariants_violated, "properties_violated": r.props_violated or r.temporal_violated})
     return r
 
 
@@ -145,8 +157,10 @@ def run_property(prop, tier, seed, plan):
         binary = v.build_harness(work)
         for i, run in enumerate(plan["runs"]):
             run_batch(work, binary, verdict, run, seed, "r%d" % i, stats)
-        for name, invs, override in plan.get("mc", []):
-            r = model_check(work, name, stats, invariants=invs, mc_override=override, timeout=plan.get("mc_timeout", 900))
+        for item in plan.get("mc", []):
+            name, invs, override = item[:3]
+            props = item[3] if len(item) > 3 else None
+            r = model_check(work, name, stats, invariants=invs, mc_override=override, timeout=plan.get("mc_timeout", 900), properties=props)
             if r is not None and (r.invariants_violated or r.temporal_violated):
                 # a design-level counterexample: only a real trace can turn it into a verdict (DESIGN 2.2)
                 stats.setdefault("model_counterexamples", []).append({"cfg": name, "invariants": r.invariants_violated})
